@@ -1,6 +1,7 @@
 /* C18 correspondence harness: esl_randomseq.c, esl_msashuffle.c, esl_vectorops.c shufflers (real code, ASan/UBSan) */
 #include "hcommon.h"
 #include <unistd.h>
+#include <ctype.h>
 #include <signal.h>
 #include <fcntl.h>
 #include <sys/stat.h>
@@ -100,6 +101,48 @@ static char **opt_fields(const char *key, int nseq, char **dup)
 }
 static char *unhex_str(const char *h) { int64_t n; return (char *) h_unhex(h, &n); }
 
+
+/* ---- support-only monitor of the binary64 facts the Markov/IID theorems trust (see lean/EaselModel/Shuffle/FloatLaws.lean).
+ * Replays the numeric pipeline of one call on a COPY of the generator and evaluates every law instance in C doubles. ---- */
+static long lw_checked, lw_bad;
+static volatile double lw_zero = 0.0;     /* volatile: the compiler must do the arithmetic, not fold it */
+static void lw_chk(int ok) { lw_checked++; if (!ok) lw_bad++; }
+static int  lw_beq(double a, double b) { return memcmp(&a, &b, sizeof(double)) == 0; }
+static int  lw_dchoose(ESL_RANDOMNESS *rc, const double *p, int N)
+{
+  double roll = esl_random(rc), norm = 0.0, sum = 0.0; int i;
+  for (i = 0; i < N; i++) norm += p[i];
+  lw_chk(!(roll < lw_zero / norm));                                                /* L4 */
+  for (i = 0; i < N; i++) { lw_chk(lw_beq(sum + lw_zero, sum)); sum += p[i]; }      /* L1 at every running sum */
+  for (sum = 0.0, i = 0; i < N; i++) { sum += p[i]; if (roll < sum / norm) return i; }
+  return -1;
+}
+static void lw_markov0(ESL_RANDOMNESS *rc, const int *codes, int L, int K)
+{
+  double *p = malloc(sizeof(double) * (K > 0 ? K : 1)); int i, x;
+  for (x = 0; x < K; x++) p[x] = 0.;
+  for (i = 0; i < L; i++) p[codes[i]] += 1.0;
+  if (L > 0) { lw_chk(lw_beq(lw_zero / (double) L, 0.0)); for (x = 0; x < K; x++) p[x] /= (double) L; }     /* L3 */
+  for (i = 0; i < L; i++) if (lw_dchoose(rc, p, K) < 0) break;
+  free(p);
+}
+static void lw_markov1(ESL_RANDOMNESS *rc, const int *codes, int L, int K)
+{
+  double *p = malloc(sizeof(double) * K * K), *p0 = malloc(sizeof(double) * K); int i, x, y, i0;
+  for (x = 0; x < K * K; x++) p[x] = 0.;
+  i0 = x = codes[0];
+  for (i = 1; i < L; i++) { y = codes[i]; p[x * K + y] += 1.0; x = y; }
+  p[x * K + i0] += 1.0;
+  for (x = 0; x < K; x++) { p0[x] = 0.; for (y = 0; y < K; y++) p0[x] += p[x * K + y]; }
+  for (x = 0; x < K; x++) if (p0[x] > 0.) lw_chk(lw_beq(lw_zero / p0[x], 0.0));                             /* L2 */
+  lw_chk(lw_beq(lw_zero + lw_zero, 0.0));                                                                    /* L1 at a = 0 */
+  lw_chk(lw_beq(lw_zero / (double) L, 0.0));                                                                 /* L3 */
+  for (x = 0; x < K; x++) { for (y = 0; y < K; y++) p[x * K + y] = (p0[x] > 0. ? p[x * K + y] / p0[x] : 0.); p0[x] /= (double) L; }
+  x = lw_dchoose(rc, p0, K);
+  for (i = 1; x >= 0 && i < L; i++) x = lw_dchoose(rc, p + x * K, K);
+  free(p); free(p0);
+}
+
 static void h_op(void)
 {
   const char *op = h_words[0];
@@ -149,6 +192,40 @@ static void h_op(void)
     return;
   }
 
+  if (!strcmp(op, "fplaws")) {     /* of=<op> + that op's arguments; the generator R is NOT advanced */
+    const char *of = h_arg("of"); ESL_RANDOMNESS rc = *R; int64_t L, i; int bad = 0;
+    lw_checked = lw_bad = 0;
+    if (!of) { h_out("bad-op"); return; }
+    if (!strcmp(of, "cmarkov0") || !strcmp(of, "cmarkov1") || !strcmp(of, "xmarkov0") || !strcmp(of, "xmarkov1")) {
+      unsigned char *sq = h_unhex(h_arg("s"), &L); int K = of[0] == 'c' ? 26 : (int) h_argi("K", 4); int *codes = malloc(sizeof(int) * (L + 1));
+      for (i = 0; i < L; i++) {
+        if (of[0] == 'c') { if (!isalpha(sq[i]) || sq[i] > 127) bad = 1; else codes[i] = toupper(sq[i]) - 'A'; }
+        else              { if (sq[i] >= K) bad = 1; else codes[i] = sq[i]; }
+      }
+      if (bad) h_out("einval");
+      else {
+        if (of[7] == '0') lw_markov0(&rc, codes, (int) L, K); else if (L > 2) lw_markov1(&rc, codes, (int) L, K);
+        h_out("ok checked=%ld bad=%ld", lw_checked, lw_bad);
+      }
+      free(codes); free(sq);
+      return;
+    }
+    if (!strcmp(of, "iid") || !strcmp(of, "fiid") || !strcmp(of, "xiid") || !strcmp(of, "xfiid")) {
+      const char *pv = h_arg("p"); int isf = (of[0] == 'f' || of[1] == 'f'), K, n = (int) h_argi("L", 0); char **f, *dup; double *pd;
+      if (!pv || !strcmp(pv, "none")) { h_out("ok checked=0 bad=0"); return; }
+      K = split_commas(pv, &f, &dup); pd = XN(double, K);
+      for (i = 0; i < K; i++) {
+        if (isf) { uint32_t u = (uint32_t) strtoul(f[i], NULL, 16); float fl; memcpy(&fl, &u, 4); pd[i] = (double) fl; }
+        else     { uint64_t u = strtoull(f[i], NULL, 16); memcpy(&pd[i], &u, 8); }
+      }
+      for (i = 0; i < n; i++) if (lw_dchoose(&rc, pd, K) < 0) break;
+      h_out("ok checked=%ld bad=%ld", lw_checked, lw_bad);
+      free(pd); free(f); free(dup);
+      return;
+    }
+    h_out("bad-op");
+    return;
+  }
   if (!strcmp(op, "sample")) {     /* esl_rsq_Sample: pre=0 lets the routine allocate, pre=1 passes caller storage */
     int L = (int) h_argi("L", 0), pre = (int) h_argi("pre", 0); char *sp = NULL, *own = NULL;
     if (pre) { own = malloc(L + 1); memset(own, 0x77, L + 1); sp = own; }
@@ -297,8 +374,16 @@ static void h_op(void)
       esl_msa_Destroy(other); esl_msa_Destroy(msa); free(rows); free(dup);
       return;
     }
+    if (!strcmp(op, "vshuffle") && h_argi("mk", 0)) {
+      int i; char *t = malloc(alen + 1); memset(t, 'x', alen); t[alen] = 0;
+      msa->ss_cons = strdup(t); msa->rf = strdup(t); msa->pp_cons = strdup(t);
+      msa->ss = malloc(sizeof(char *) * msa->sqalloc); msa->pp = malloc(sizeof(char *) * msa->sqalloc);
+      for (i = 0; i < msa->sqalloc; i++) { msa->ss[i] = (i < nseq && (i & 1) == 0) ? strdup(t) : NULL; msa->pp[i] = i < nseq ? strdup(t) : NULL; }
+      for (i = 0; i < nseq; i++) { char nm[16]; sprintf(nm, "s%d", i); esl_msa_SetSeqName(msa, i, nm, -1); msa->wgt[i] = i + 1; }
+      free(t);
+    }
     if (ip && strcmp(op, "bootstrap")) shuf = msa;
-    else if (!strcmp(op, "vshuffle")) shuf = esl_msa_Clone(msa);
+    else if (!strcmp(op, "vshuffle") && !h_argi("fresh", 0)) shuf = esl_msa_Clone(msa);
     else {
       int i; shuf = dig ? esl_msa_CreateDigital(abc, nseq, alen) : esl_msa_Create(nseq, alen);
       for (i = 0; i < nseq; i++) { if (dig) memset(shuf->ax[i], 0x77, alen + 2); else memset(shuf->aseq[i], 0x77, alen + 1); }
@@ -307,7 +392,20 @@ static void h_op(void)
     else if (!strcmp(op, "bootstrap"))  status = esl_msashuffle_Bootstrap(R, msa, shuf);
     else                                status = esl_msashuffle_VShuffle(R, msa, shuf);
     if (status == eslOK && !dig) { int i; for (i = 0; i < nseq; i++) if (shuf->aseq[i][alen] != 0) status = -12345; }
+    if (status == eslOK && !strcmp(op, "vshuffle") && h_argi("mk", 0) && !h_argi("fresh", 0)) {   /* everything but ax[][] must be as before */
+      int i, okm = 1; char *t = malloc(alen + 1); memset(t, 'x', alen); t[alen] = 0;
+      if (!shuf->ss_cons || strcmp(shuf->ss_cons, t) || !shuf->rf || strcmp(shuf->rf, t) || !shuf->pp_cons || strcmp(shuf->pp_cons, t)) okm = 0;
+      for (i = 0; i < nseq && okm; i++) {
+        char nm[16]; sprintf(nm, "s%d", i);
+        if (strcmp(shuf->sqname[i], nm) || shuf->wgt[i] != i + 1 || !shuf->pp[i] || strcmp(shuf->pp[i], t)) okm = 0;
+        if (((i & 1) == 0) ? (!shuf->ss[i] || strcmp(shuf->ss[i], t)) : (shuf->ss[i] != NULL)) okm = 0;
+      }
+      if (shuf->nseq != nseq || shuf->alen != alen) okm = 0;
+      free(t);
+      if (!okm) status = -12346;
+    }
     if (status == -12345) h_out("ok-but-no-nul");
+    else if (status == -12346) h_out("ok-but-markup-changed");
     else if (status != eslOK) h_out("%s", h_status(status)); else out_msa(shuf, dig, alen);
     if (shuf != msa) esl_msa_Destroy(shuf);
     esl_msa_Destroy(msa); free(rows); free(dup);
@@ -331,9 +429,9 @@ static void h_op(void)
       if (of[5]) { t = unhex_str(of[5][i]); esl_msa_AddGS(msa, "TG", -1, i, t, -1); free(t); }
       if (of[6]) { t = unhex_str(of[6][i]); esl_msa_AppendGR(msa, "RT", i, t); free(t); }
     }
-    if (of[2]) { msa->ss = malloc(sizeof(char *) * msa->sqalloc); for (i = 0; i < msa->sqalloc; i++) msa->ss[i] = i < nseq ? unhex_str(of[2][i]) : NULL; }
-    if (of[3]) { msa->sa = malloc(sizeof(char *) * msa->sqalloc); for (i = 0; i < msa->sqalloc; i++) msa->sa[i] = i < nseq ? unhex_str(of[3][i]) : NULL; }
-    if (of[4]) { msa->pp = malloc(sizeof(char *) * msa->sqalloc); for (i = 0; i < msa->sqalloc; i++) msa->pp[i] = i < nseq ? unhex_str(of[4][i]) : NULL; }
+    if (of[2]) { msa->ss = malloc(sizeof(char *) * msa->sqalloc); for (i = 0; i < msa->sqalloc; i++) msa->ss[i] = (i < nseq && strcmp(of[2][i], "~")) ? unhex_str(of[2][i]) : NULL; }
+    if (of[3]) { msa->sa = malloc(sizeof(char *) * msa->sqalloc); for (i = 0; i < msa->sqalloc; i++) msa->sa[i] = (i < nseq && strcmp(of[3][i], "~")) ? unhex_str(of[3][i]) : NULL; }
+    if (of[4]) { msa->pp = malloc(sizeof(char *) * msa->sqalloc); for (i = 0; i < msa->sqalloc; i++) msa->pp[i] = (i < nseq && strcmp(of[4][i], "~")) ? unhex_str(of[4][i]) : NULL; }
     /* the parsers' length arrays, present iff the annotation is: sslen[i] = 1000+i, salen[i] = 2000+i, pplen[i] = 3000+i */
     if (of[2]) { msa->sslen = malloc(sizeof(int64_t) * msa->sqalloc); for (i = 0; i < msa->sqalloc; i++) msa->sslen[i] = 1000 + i; }
     if (of[3]) { msa->salen = malloc(sizeof(int64_t) * msa->sqalloc); for (i = 0; i < msa->sqalloc; i++) msa->salen[i] = 2000 + i; }
@@ -344,7 +442,13 @@ static void h_op(void)
         for (i = 0; i < nseq; i++) if (strcmp(g2[i], "~")) { char *t = unhex_str(g2[i]); esl_msa_AddGS(msa, "T2", -1, i, t, -1); free(t); }
         free(g2); free(g2d);
       } }
-    for (i = 0; i < nseq; i++) esl_keyhash_Store(msa->index, msa->sqname[i], -1, NULL);
+    { char **g2, *g2d; const char *gv = h_arg("gr2");    /* a second #=GR tag present only for the sequences whose field is not "~" */
+      if (gv && strcmp(gv, "none") && split_commas(gv, &g2, &g2d) == nseq) {
+        for (i = 0; i < nseq; i++) if (strcmp(g2[i], "~")) { char *t = unhex_str(g2[i]); esl_msa_AppendGR(msa, "R2", i, t); free(t); }
+        free(g2); free(g2d);
+      } }
+    if (h_argi("idx", 1)) { for (i = 0; i < nseq; i++) esl_keyhash_Store(msa->index, msa->sqname[i], -1, NULL); }
+    else { esl_keyhash_Destroy(msa->index); msa->index = NULL; }      /* an alignment without a name index */
     status = esl_msashuffle_PermuteSequenceOrder(R, msa);
     if (status != eslOK) h_out("%s", h_status(status));
     else {
@@ -358,9 +462,9 @@ static void h_op(void)
         sprintf(num, "/%d/%" PRId64, (int) msa->wgt[i], msa->sqlen[i]); ob_add(num);
         if (of[0]) { ob_add("/"); ob_add(h_hex(msa->sqacc[i], strlen(msa->sqacc[i]))); }
         if (of[1]) { ob_add("/"); ob_add(h_hex(msa->sqdesc[i], strlen(msa->sqdesc[i]))); }
-        if (of[2]) { ob_add("/"); ob_add(h_hex(msa->ss[i], strlen(msa->ss[i]))); }
-        if (of[3]) { ob_add("/"); ob_add(h_hex(msa->sa[i], strlen(msa->sa[i]))); }
-        if (of[4]) { ob_add("/"); ob_add(h_hex(msa->pp[i], strlen(msa->pp[i]))); }
+        if (of[2]) { ob_add("/"); if (msa->ss[i]) ob_add(h_hex(msa->ss[i], strlen(msa->ss[i]))); else ob_add("~"); }
+        if (of[3]) { ob_add("/"); if (msa->sa[i]) ob_add(h_hex(msa->sa[i], strlen(msa->sa[i]))); else ob_add("~"); }
+        if (of[4]) { ob_add("/"); if (msa->pp[i]) ob_add(h_hex(msa->pp[i], strlen(msa->pp[i]))); else ob_add("~"); }
         if (of[5]) { ob_add("/"); ob_add(h_hex(msa->gs[0][i], strlen(msa->gs[0][i]))); }
         if (of[6]) { ob_add("/"); ob_add(h_hex(msa->gr[0][i], strlen(msa->gr[0][i]))); }
         if (of[2]) { sprintf(num, "/%" PRId64, msa->sslen[i]); ob_add(num); }
@@ -368,9 +472,12 @@ static void h_op(void)
         if (of[4]) { sprintf(num, "/%" PRId64, msa->pplen[i]); ob_add(num); }
         { int tg; for (tg = 0; tg < msa->ngs; tg++) if (!strcmp(msa->gs_tag[tg], "T2")) {
             ob_add("/"); if (msa->gs[tg][i]) ob_add(h_hex(msa->gs[tg][i], strlen(msa->gs[tg][i]))); else ob_add("~"); } }
-        if (esl_keyhash_Lookup(msa->index, msa->sqname[i], -1, &ki) != eslOK || ki != i) idxok = 0;
+        { int tg; for (tg = 0; tg < msa->ngr; tg++) if (!strcmp(msa->gr_tag[tg], "R2")) {
+            ob_add("/"); if (msa->gr[tg][i]) ob_add(h_hex(msa->gr[tg][i], strlen(msa->gr[tg][i]))); else ob_add("~"); } }
+        if (msa->index && (esl_keyhash_Lookup(msa->index, msa->sqname[i], -1, &ki) != eslOK || ki != i)) idxok = 0;
       }
       if (nseq == 0) ob_add("-");
+      if (!h_argi("idx", 1) && msa->index != NULL) idxok = 0;          /* the routine must not invent an index */
       ob_add(idxok ? " index=ok" : " index=BAD");
       h_out("%s", ob);
     }
@@ -381,20 +488,25 @@ static void h_op(void)
   if (!strcmp(op, "cqrna") || !strcmp(op, "xqrna")) {
     ESL_ALPHABET *abc = get_abc(); int64_t Lx, Ly; unsigned char *x = h_unhex(h_arg("x"), &Lx), *y = h_unhex(h_arg("y"), &Ly);
     if (!strcmp(op, "cqrna")) {
+      /* ip=0 separate, ip=1 both in place, ip=2 only xs == x, ip=3 only ys == y */
       char *xs = (char *) x, *ys = (char *) y;
-      if (!ip) { xs = malloc(Lx + 1); ys = malloc(Ly + 1); memset(xs, 0x77, Lx + 1); memset(ys, 0x77, Ly + 1); }
+      if (ip == 0 || ip == 3) { xs = malloc(Lx + 1); memset(xs, 0x77, Lx + 1); }
+      if (ip == 0 || ip == 2) { ys = malloc(Ly + 1); memset(ys, 0x77, Ly + 1); }
       status = esl_msashuffle_CQRNA(R, abc, (char *) x, (char *) y, xs, ys);
       if (status != eslOK) h_out("%s", h_status(status));
       else if (xs[Lx] != 0 || ys[Ly] != 0) h_out("ok-but-no-nul");
       else { ob_reset(); ob_add("ok "); ob_add(h_hex(xs, Lx)); ob_add(","); ob_add(h_hex(ys, Ly)); h_out("%s", ob); }
-      if (!ip) { free(xs); free(ys); }
+      if (xs != (char *) x) free(xs);
+      if (ys != (char *) y) free(ys);
     } else {
       ESL_DSQ *dx = mk_dsq(x, Lx), *dy = mk_dsq(y, Ly), *xs = dx, *ys = dy;
-      if (!ip) { xs = malloc(Lx + 2); ys = malloc(Ly + 2); memset(xs, 0x77, Lx + 2); memset(ys, 0x77, Ly + 2); }
+      if (ip == 0 || ip == 3) { xs = malloc(Lx + 2); memset(xs, 0x77, Lx + 2); }
+      if (ip == 0 || ip == 2) { ys = malloc(Ly + 2); memset(ys, 0x77, Ly + 2); }
       status = esl_msashuffle_XQRNA(R, abc, dx, dy, xs, ys);
       if (status != eslOK) h_out("%s", h_status(status));
       else { ob_reset(); ob_add("ok "); ob_add(h_hex(xs, Lx + 2)); ob_add(","); ob_add(h_hex(ys, Ly + 2)); h_out("%s", ob); }
-      if (!ip) { free(xs); free(ys); }
+      if (xs != dx) free(xs);
+      if (ys != dy) free(ys);
       free(dx); free(dy);
     }
     free(x); free(y);
